@@ -35,6 +35,7 @@ type daemonOpts struct {
 	SshdPath string // "" = a FIFO; "regular" | "missing" | "dir"
 	AudPath  string
 	Output   string // "" = regular file; "devfull"
+	Extra    []string
 }
 
 func daemonBinary(race bool) string {
@@ -82,7 +83,8 @@ func startDaemon(o daemonOpts) *daemon {
 	if err != nil {
 		panic(&infraError{err.Error()})
 	}
-	d.cmd = exec.Command(daemonBinary(o.Race), "-sshd-pipe-path", d.sshdPipe, "-auditd-pipe-path", d.audPipe, "-app-events-output", d.outPath)
+	args := append([]string{"-sshd-pipe-path", d.sshdPipe, "-auditd-pipe-path", d.audPipe, "-app-events-output", d.outPath}, o.Extra...)
+	d.cmd = exec.Command(daemonBinary(o.Race), args...)
 	d.cmd.Env = append(os.Environ(), "NODE_NAME="+vhNode, "GORACE=halt_on_error=0 exitcode=0")
 	d.cmd.Stdout = ef
 	d.cmd.Stderr = ef
